@@ -51,6 +51,11 @@ type handle struct {
 	lanes     []ref.Sponge // m single-lane reference sponges
 	squeezing bool
 	lastDst   []trinary.Trits // what the previous Squeeze of this handle returned
+	kept      []trinary.Trits // a private copy of it: the caller's output must not change behind its back
+	keptOp    int
+	prevDst   []trinary.Trits // the output before that one, still held by the caller
+	prevKept  []trinary.Trits
+	prevOp    int
 
 	// owned by the actor goroutine until it has exited
 	in      chan opMsg
@@ -196,6 +201,33 @@ func (hd *handle) check(opIndex int, note string) bool {
 	return true
 }
 
+// outputIntact checks that the slices the previous Squeeze of this handle returned still hold what they held then.
+func (hd *handle) outputIntact(opIndex int) bool {
+	for j := range hd.prevKept {
+		if j >= len(hd.prevDst) || len(hd.prevDst[j]) != len(hd.prevKept[j]) {
+			continue
+		}
+		for t := range hd.prevKept[j] {
+			if hd.prevDst[j][t] != hd.prevKept[j][t] {
+				hd.violate("model-divergence:returned-output-changed", fmt.Sprintf("at op %d on handle #%d: the trits returned by the Squeeze of op %d were changed by a later call (lane %d, trit %d: %d -> %d)", opIndex, hd.idx, hd.prevOp, j, t, hd.prevKept[j][t], hd.prevDst[j][t]))
+				return false
+			}
+		}
+	}
+	for j := range hd.kept {
+		if j >= len(hd.lastDst) || len(hd.lastDst[j]) != len(hd.kept[j]) {
+			continue
+		}
+		for t := range hd.kept[j] {
+			if hd.lastDst[j][t] != hd.kept[j][t] {
+				hd.violate("model-divergence:returned-output-changed", fmt.Sprintf("before op %d on handle #%d: the trits returned by the Squeeze of op %d changed afterwards (lane %d, trit %d: %d -> %d)", opIndex, hd.idx, hd.keptOp, j, t, hd.kept[j][t], hd.lastDst[j][t]))
+				return false
+			}
+		}
+	}
+	return true
+}
+
 // loop is the body of an actor goroutine.
 func (hd *handle) loop(acks chan ack, exits chan *handle) {
 	for msg := range hd.in {
@@ -218,7 +250,7 @@ func (hd *handle) loop(acks chan ack, exits chan *handle) {
 		a.violated = hd.class != ""
 		kernel.Hidden(func() { acks <- a })
 	}
-	if hd.class == "" {
+	if hd.class == "" && hd.outputIntact(-1) {
 		hd.check(-1, " (end of the history)")
 	}
 	exits <- hd // visible: the root may read the actor's memory after this
@@ -239,8 +271,33 @@ func Run(cfg *Config) proto.End {
 		first.real, first.lanes = curl.NewCurlP81(), make([]ref.Sponge, m)
 		first.loop(acks, exits)
 	}()
+	// a bystander: an instance that has nothing to do with the others (not a clone), on a goroutine of its own, used
+	// now and then while the history runs: package-level state shared by ALL instances shows up here
+	bm := 1 + int(cfg.M)%3
+	by := &handle{idx: 99, m: bm, in: make(chan opMsg, inboxCap), probes: map[string]int{}, faults: map[string]int{}}
+	byIn := by.in
+	go func() {
+		by.real, by.lanes = curl.NewCurlP81(), make([]ref.Sponge, bm)
+		by.loop(acks, exits)
+	}()
+	byOps := 0
 	for i := range cfg.Ops {
 		op := cfg.Ops[i]
+		if i%3 == 2 {
+			kind := "absorb"
+			if byOps%4 == 3 {
+				kind = "reset"
+			} else if byOps%2 == 1 {
+				kind = "squeeze"
+			}
+			byIn <- opMsg{index: i, idx: 99, live: 4, op: Op{Kind: kind, Blocks: 1, Pattern: "random", Seed: op.Seed ^ 0x5bd1e995, M: bm}}
+			var b ack
+			kernel.Hidden(func() { b = <-acks })
+			byOps++
+			if b.violated {
+				break
+			}
+		}
 		idx := ((op.H % len(inboxes)) + len(inboxes)) % len(inboxes)
 		inboxes[idx] <- opMsg{index: i, op: op, idx: idx, live: len(inboxes)}
 		var a ack
@@ -266,11 +323,12 @@ func Run(cfg *Config) proto.End {
 			break
 		}
 	}
+	close(byIn)
 	for _, in := range inboxes {
 		close(in)
 	}
 	var all []*handle
-	for range inboxes {
+	for i := 0; i < len(inboxes)+1; i++ {
 		all = append(all, <-exits)
 	}
 	// every actor has exited (visible receive above): their memory may be read now
@@ -336,6 +394,9 @@ func probeKey(prefix string, blocks int) string {
 func (hd *handle) step(msg opMsg) (clone *handle) {
 	i, op, idx := msg.index, &msg.op, msg.idx
 	hd.idx = idx
+	if !hd.outputIntact(i) {
+		return nil
+	}
 	where := func() string { return fmt.Sprintf("op %d %s on handle #%d", i, op.Kind, idx) }
 	blocks := op.Blocks
 	if blocks < 0 {
@@ -355,6 +416,12 @@ func (hd *handle) step(msg opMsg) (clone *handle) {
 		}
 		for j := 0; j < hd.m; j++ {
 			hd.lanes[j].Absorb(src[j])
+		}
+		// the caller reuses its input buffers: whatever Absorb needed from src it must have taken by now
+		for j := range src {
+			for t := range src[j] {
+				src[j][t] = int8((t+j)%3) - 1
+			}
 		}
 		if n > 0 {
 			hd.changes++
@@ -379,7 +446,10 @@ func (hd *handle) step(msg opMsg) (clone *handle) {
 				hd.probes["squeeze_into_previous_output"] = 1
 			}
 		}
-		hd.lastDst = dst
+		if op.Dst != "reuse" {
+			hd.prevDst, hd.prevKept, hd.prevOp = hd.lastDst, hd.kept, hd.keptOp // the caller keeps the earlier output
+		}
+		hd.lastDst, hd.kept = dst, nil
 		if err := hd.real.Squeeze(dst, n); err != nil {
 			hd.violate("wrong-error", fmt.Sprintf("%s: valid Squeeze of %d lanes x %d trits returned %q", where(), hd.m, n, err))
 			return
@@ -401,6 +471,11 @@ func (hd *handle) step(msg opMsg) (clone *handle) {
 			hd.squeezing = true
 			hd.changes++
 			hd.probes[probeKey("squeeze_blocks_", blocks)] = 1
+		}
+		// what Squeeze returned belongs to the caller: remember it, and look again before this handle's next call
+		hd.kept, hd.keptOp = make([]trinary.Trits, len(dst)), i
+		for j := range dst {
+			hd.kept[j] = append(trinary.Trits{}, dst[j]...)
 		}
 		e.extra = op.Dst
 	case "clone":
@@ -475,6 +550,9 @@ func (hd *handle) step(msg opMsg) (clone *handle) {
 		return
 	}
 	hd.log = append(hd.log, e)
+	if !hd.outputIntact(i) {
+		return clone
+	}
 	// the handle must agree with its own model after each of its operations; the root makes every OTHER live handle
 	// compare itself as well, so an operation that disturbs another handle is seen at once
 	hd.check(i, "")
